@@ -87,6 +87,7 @@ def check(ctx):
     ctx.rule("C11.A4", "the staging name is the full target path with a constant suffix appended (same directory, injective)")
     ctx.rule("C11.A5", "mode discipline: helper rejects modes without 'w'; call sites pass constant modes from {w, wb}")
     ctx.rule("C11.A6", "the helpers touch the target path only through the rename")
+    ctx.rule("C11.A8", "on the normal path of the with-body the rename happens on every path (write success <=> target replaced, modified time advanced)")
     ctx.rule("C11.A7", "a failing rename (I/O error on rename) is covered by the same remove-and-re-raise cleanup")
     ctx.trust("os.replace(src, dst) is atomic when both are on one file system; open(..., 'w') truncates")
     ctx.trust("try/finally and with run their exit code on every exit; a bare raise re-raises the handled exception")
@@ -228,6 +229,17 @@ def check(ctx):
                        "a failing rename reaches the staging-file removal" if ok else
                        "if the rename raises, the exception escapes without removing the staging file "
                        "(staging file left behind after a failed write)", norm(rstmt), p)
+        # (v) A8: on the normal path the rename always happens (the target and its mtime change iff the write succeeded)
+        rn_all = set()
+        for rc in renames:
+            rn_all |= set(g.of(stmt_of(mod, rc)))
+        for yn in ynodes:
+            okp = g.must_pass(yn, rn_all, exits={g.exit}, first_labels={"n"})
+            p = "" if okp else g.fmt_path(g.path(yn, {g.exit}, avoid=rn_all, first_labels={"n"}))
+            ctx.ob("C11.A8", f"{f.short}/publish-on-every-normal-path", okp, loc(f, ystmt),
+                   "after the with-body completed normally every path publishes the staging file" if okp else
+                   "a successful write can return without replacing the target: the value (or at least its modified time) is not the "
+                   "new one although write() reported success", norm(ystmt), p)
         # (iv) exceptional edge of the yield: cleanup then bare re-raise, never swallowed
         removes = cleanup_nodes(m, f, g, staging_vars)
         for yn in ynodes:
